@@ -24,6 +24,10 @@ def build_file(rows, fileseed, structured, eol, macros, hazard=False):
             if not hazard and rnd.random() < 0.3:
                 gf.raw("    " + gen.filler(rnd, eol))
                 gf.newline()
+            if str(fileseed).endswith("bulk"):
+                # megabytes of ordinary code between the statements: recognition must not depend on the size of the file
+                for _ in range(160):
+                    gf.raw("    let v_%d = compute(a_%d, b) + %d; if v_%d > limit { counter += 1; } // ordinary line%s" % (i, i, i % 97, i, eol))
     if hazard:
         gf.raw("/* end of generated file */" + eol)
     return gf
@@ -119,8 +123,29 @@ def work(job):
     for it in gf.stmts():
         f = it.stmt.feat
         res["nontrivial"].append(json.dumps([structured, eol == "\r\n", sorted(f.items())], sort_keys=True))
+    if str(fileseed).endswith("bulk") and badset:
+        # no per-statement reduction on the multi-megabyte file (it would take minutes): one finding for the file
+        it, clauses = next(iter(badset.values()))
+        small = still_fails(built, it.stmt.feat, clauses[0], structured, eol, macros)
+        res["violations"].append({
+            "signature": "C10.%s|%s|%s" % (clauses[0], "structured" if structured else "unstructured",
+                                           "also-in-a-small-file" if small else "only-in-a-multi-megabyte-file"),
+            "detail": {"statements_failing": len(badset), "statements_in_file": len(gf.stmts()), "file_bytes": len(gf.data()),
+                       "first_statement": it.stmt.text, "check_stdout_tail": out.check.out[-300:]},
+            "case": {"rows": [x.stmt.feat for x in gf.stmts()], "fileseed": fileseed, "structured": structured, "eol": eol,
+                     "macros": macros, "hazard": False}})
+        return res
+    nshrunk = 0
     for it, clauses in badset.values():
         clause = clauses[0]
+        nshrunk += 1
+        if nshrunk > 4:
+            # bounded effort per file: further failing statements are reported with their unreduced feature vector
+            nn = {k: v for k, v in it.stmt.feat.items() if k in gen.NEUTRAL and v != gen.NEUTRAL[k]}
+            res["violations"].append({"signature": sig_of(clause, structured, nn, macros) + "|unreduced",
+                                      "detail": {"clauses": clauses, "statement": it.stmt.text, "features": it.stmt.feat, "structured": structured},
+                                      "case": {"rows": [it.stmt.feat], "fileseed": fileseed, "structured": structured, "eol": eol, "macros": macros, "hazard": True}})
+            continue
         nn, alone = shrink(built, it.stmt.feat, clause, structured, eol, macros)
         if alone:
             sig = sig_of(clause, structured, nn, macros)
@@ -228,6 +253,9 @@ def main(tier):
         macros = MACRO_SETS[n % len(MACRO_SETS)]
         jobs.append((built, "%d-%d" % (ck.seed, n), chunk, structured, eol, macros, False))
         n += 1
+    for b, structured in enumerate((False, True)):
+        bulk_rows = [dict(gen.random_feat(rnd), ref="none") for _ in range(160)]
+        jobs.append((built, "%d-%dbulk" % (ck.seed, b), bulk_rows, structured, "\n", gen.DEFAULT_MACROS, False))
     hz = hazard_rows(rnd)
     for j, f in enumerate(hz):
         for structured in (False, True):
